@@ -196,6 +196,11 @@ def q1(facts, tier):
               "; ".join(f"{', '.join(x['skipped'][:3])} (arm {x['arm']})" for x in skip[:2]) +
               ", and thereby skips the comparison of exactly that fact: two schemas that differ only there compare as identical") if skip
              else "every accepting shortcut is taken on a condition that covers, on both operands, every fact whose comparison it skips")
+    lr = [x for fs in tab.arms.values() for x in fs if x["kind"] == "loop-return"]
+    yield ob(props + ["C15"], "Q1", "no-undetermined-return-inside-a-loop", "violation" if lr else "pass", where(f),
+             ("inside a loop over elements (arm " + ", ".join(sorted({x['arm'] for x in lr})) + ") the function returns the result of a nested "
+              "comparison as it is: when that comparison finds no difference, the remaining elements (methods, fields, variants) are never "
+              "compared") if lr else "inside loops only definite differences are returned")
     bad = sorted({(arm, p) for arm, p in ex.cond_paths if any(x in DIFF_FORBIDDEN for x in p[-1:]) or
                   (len(p) >= 2 and p[-1] == "name" and "fields" in p) or p[-1] == "Vector.1" or "schema_string.0" in p[-1]})
     if bad:
